@@ -51,10 +51,11 @@ def convert(fx, np, src, route, ds, dnw, dnf, r, o):
         ni = dnw - dnf - (1 if ds else 0)
         if route == 'like_kw_nint':
             tmpl = fx.Fxp(None, like=src); tmpl.config.rounding = r; tmpl.config.overflow = o
-            return fx.Fxp(src, like=tmpl, signed=ds, n_int=ni, n_frac=dnf)
+            return fx.Fxp(src, like=tmpl, n_int=ni, n_frac=dnf, **({} if (bool(src.signed) == bool(ds) and (dnw + dnf) % 2) else {'signed': ds}))
         d = fx.Fxp(src, like=src); d.config.rounding = r; d.config.overflow = o
-        if route == 'resize_nint_nfrac': d.resize(signed=ds, n_int=ni, n_frac=dnf)
-        else: d.resize(signed=ds, n_word=dnw, n_int=ni)
+        skw = {} if (bool(src.signed) == bool(ds) and (dnw + dnf) % 2) else {'signed': ds}      # (the sign argument left out when the signedness stays: it is then kept)
+        if route == 'resize_nint_nfrac': d.resize(n_int=ni, n_frac=dnf, **skw)
+        else: d.resize(n_word=dnw, n_int=ni, **skw)
         return d
     if route == 'resize':
         d = fx.Fxp(src, like=src); d.config.rounding = r; d.config.overflow = o   # same format copy, then resize in place
